@@ -55,22 +55,106 @@ def plan(prop, tier):
     q = tier == "quick"
     S = Step
     steps = []
+
+    def many(monitor, cfgs, shards=8, scale=1.0, profile="rel", params=None, main=("default", "naive"), minor_scale=0.25, minor_shards=4):
+        for c in cfgs:
+            big = c in main
+            p = dict(params or {})
+            if monitor in ("c01-agg",):
+                p["expect_agg_backends"] = AGG_BACKENDS.get(c, 2)
+            if monitor in ("c02-body",):
+                p["expect_dist_backends"] = DIST_BACKENDS.get(c, 3)
+            steps.append(S(monitor, c, profile=profile, shards=shards if big else minor_shards,
+                           scale=scale if big else scale * minor_scale, params=p))
+
     if prop == "C01":
         cfgs = ["default", "naive", "lowmem-a", "static-sse41"] if q else \
             ["default", "naive", "optdef", "embedded", "lowmem-a", "lowmem-b", "lowmem-c", "dyn-nohex",
              "static-sse2", "static-sse41", "static-avx2", "unsafe", "unsafe-naive"]
-        for c in cfgs:
-            sc = 1.0 if c in ("default", "naive") else 0.25
-            steps.append(S("c01-api", c, shards=16 if c in ("default", "naive") else 4, scale=sc))
-            steps.append(S("c01-state", c, shards=8 if c in ("default", "naive") else 4, scale=sc))
-            steps.append(S("c01-agg", c, shards=4, scale=sc,
-                           params={"expect_agg_backends": AGG_BACKENDS.get(c, 2)}))
+        many("c01-api", cfgs, shards=16)
+        many("c01-state", cfgs, shards=8)
+        many("c01-agg", cfgs, shards=4, minor_scale=1.0)
         steps.append(S("c01-map", "default", shards=16))
         steps.append(S("c01-map", "naive", shards=16))
-        for c in ["default", "naive"]:
-            steps.append(S("c01-api", c, profile="dbg", shards=8, scale=0.25))
-            steps.append(S("c01-state", c, profile="dbg", shards=4, scale=0.25))
-        return steps
+        many("c01-api", ["default", "naive"], profile="dbg", shards=8, scale=0.25)
+        many("c01-state", ["default", "naive"], profile="dbg", shards=4, scale=0.25)
+    elif prop == "C02":
+        cfgs = ["default", "naive", "embedded", "lowmem-b"] if q else \
+            ["default", "naive", "optdef", "embedded", "lowmem-a", "lowmem-b", "static-sse2", "static-sse41", "static-avx2", "unsafe", "strict"]
+        many("c02-parts", cfgs, shards=4, minor_shards=4, minor_scale=1.0)
+        many("c02-whole", cfgs, shards=8, scale=2.0)
+        bcfgs = ["default", "static-sse41"] if q else ["default", "dyn-nohex", "naive", "static-sse2", "static-sse41", "static-avx2", "unsafe", "unsafe-static-avx2"]
+        many("c02-body", bcfgs, shards=16, main=bcfgs)
+        many("c02-whole", ["default"], profile="dbg", shards=4, scale=0.25)
+    elif prop == "C03":
+        cfgs = ["default", "naive", "lowmem-a"] if q else ["default", "naive", "lowmem-a", "lowmem-b", "optdef", "static-avx2", "unsafe"]
+        many("c03-history", cfgs, shards=16, scale=2.0, main=cfgs)
+        many("c03-history", ["default", "naive", "lowmem-a"], profile="dbg", shards=8, scale=0.5, main=("default", "naive", "lowmem-a"))
+    elif prop == "C04":
+        cfgs = ["default", "naive", "embedded", "lowmem-a", "lowmem-b", "lowmem-c", "hexsimd-parse", "hexsimd-conv", "unsafe", "strict"]
+        if not q:
+            cfgs += ["optdef", "static-avx2", "unsafe-naive", "unsafe-lowmem-b"]
+        many("c04-text", cfgs, shards=8, scale=2.0, main=cfgs)
+        many("c04-text", ["default", "naive"], profile="dbg", shards=4, scale=0.5)
+    elif prop == "C05":
+        cfgs = ["default", "naive", "lowmem-a", "lowmem-b", "lowmem-c", "hexsimd-parse"]
+        if not q:
+            cfgs += ["embedded", "hexsimd-conv", "unsafe", "unsafe-lowmem-b", "static-avx2"]
+        many("c05-parse", cfgs, shards=8, scale=2.0, main=cfgs)
+        many("c05-parse", ["default", "naive", "lowmem-a", "lowmem-b", "lowmem-c"], profile="dbg", shards=4, scale=0.5, main=("default",))
+    elif prop == "C06":
+        cfgs = ["default", "naive", "strict"] if q else ["default", "naive", "strict", "lowmem-a", "lowmem-b", "unsafe", "embedded"]
+        many("c06-binary", cfgs, shards=8, scale=2.0, main=cfgs)
+        many("c06-binary", ["default", "strict"], profile="dbg", shards=4, scale=0.5)
+    elif prop == "C08":
+        cfgs = ["default", "naive", "embedded"] if q else ["default", "naive", "embedded", "optdef", "lowmem-a", "lowmem-b", "static-sse2", "static-sse41", "static-avx2", "unsafe", "strict"]
+        many("c08-laws", cfgs, shards=8, scale=2.0, main=cfgs)
+        many("c08-laws", ["default"], profile="dbg", shards=4, scale=0.25)
+    elif prop == "C09":
+        steps.append(S("c09-length", "default", shards=16))
+        steps.append(S("c09-length", "default", profile="dbg", shards=1, scale=0.5))
+        if not q:
+            steps.append(S("c09-length", "naive", shards=16))
+            steps.append(S("c09-length", "unsafe", shards=16))
+            steps.append(S("c09-length", "strict", shards=16))
+    elif prop == "C10":
+        cfgs = ["default", "naive", "lowmem-a"] if q else ["default", "naive", "lowmem-a", "lowmem-b", "optdef", "static-avx2", "unsafe"]
+        many("c10-lattice", cfgs, shards=8, scale=2.0, main=cfgs)
+        many("c10-lattice", ["default", "naive"], profile="dbg", shards=4, scale=0.5)
+    elif prop == "C11":
+        cfgs = ["default", "naive", "lowmem-a"] if q else ["default", "naive", "lowmem-a", "lowmem-b", "unsafe", "static-avx2"]
+        many("c11-oversize", cfgs, shards=16, main=cfgs)
+        many("c11-oversize", ["default", "naive", "lowmem-a"], profile="dbg", shards=8, scale=0.25, main=("default", "naive", "lowmem-a"))
+        if not q:
+            for fam in range(3):
+                steps.append(S("c11-real", "default", shards=1, params={"family": fam}, timeout=4 * 3600))
+            steps.append(S("c11-real", "naive", shards=1, params={"family": 2}, timeout=4 * 3600))
+            steps.append(S("c11-huge-slice", "default", shards=1, timeout=2 * 3600))
+            steps.append(S("c11-huge-slice", "default", profile="dbg", shards=1, timeout=4 * 3600))
+    elif prop == "C12":
+        cfgs = ["default", "naive"] if q else ["default", "naive", "unsafe", "lowmem-a", "static-avx2", "strict"]
+        many("c12-stream", cfgs, shards=16, scale=2.0, main=cfgs)
+        many("c12-stream", ["default", "naive"], profile="dbg", shards=8, scale=0.5)
+    elif prop == "C13":
+        cfgs = ["default", "naive", "strict"] if q else ["default", "naive", "strict", "lowmem-b", "hexsimd-parse", "unsafe", "strict-naive"]
+        many("c13-compare", cfgs, shards=8, scale=2.0, main=cfgs)
+        many("c13-compare", ["default", "strict"], profile="dbg", shards=4, scale=0.5)
+    elif prop == "C14":
+        cfgs = ["default", "naive", "embedded", "lowmem-a", "lowmem-b", "hexsimd-conv", "strict", "unsafe"]
+        if not q:
+            cfgs += ["optdef", "hexsimd-parse", "unsafe-lowmem-b", "static-avx2"]
+        many("c14-buffers", cfgs, shards=8, scale=2.0, main=cfgs)
+        many("c14-buffers", ["default", "naive"], profile="dbg", shards=4, scale=0.5)
+    elif prop == "C15":
+        P = {"property": "C15"}
+        scfgs = ["strict", "strict-naive"]
+        many("c05-parse", scfgs, shards=8, params=P, main=scfgs)
+        many("c06-binary", scfgs, shards=8, params=P, main=scfgs)
+        many("c15-gates", scfgs + ["default"], shards=4, main=scfgs + ["default"])
+        gcfgs = scfgs + (["default", "naive"] if q else ["default", "naive", "lowmem-a", "lowmem-b", "static-avx2", "unsafe"])
+        many("c15-generated", gcfgs, shards=8, main=gcfgs)
+        many("c05-parse", ["strict"], profile="dbg", shards=4, scale=0.5, params=P, main=())
+        many("c15-generated", ["strict"], profile="dbg", shards=4, scale=0.5, main=())
     return steps
 
 
